@@ -129,7 +129,7 @@ Section LcsLen.
     remember (S oe) as oe1 eqn:Eo. remember (S ne) as ne1 eqn:En.
     intros H. induction H as [os ns|os ns i j m H1 H2 H3 H4 H5 H6 IH].
     - exists []. split; [constructor|cbn [length]; lia].
-    - destruct (IH Eo En) as (m'' & Hm'' & Hlen).
+    - destruct IH as (m'' & Hm'' & Hlen).
       destruct (Nat.eq_dec i oe) as [Hi|Hi].
       + assert (Hnil : m = []) by (eapply CommonSub_empty; [exact H6|left; lia]).
         subst m. exists []. split; [constructor|cbn [length]; lia].
@@ -146,7 +146,7 @@ Section LcsLen.
     CommonSub cmp oe ne i j m -> oe <= i + cnt -> ne <= j + len ->
     length m <= L cnt i len j.
   Proof.
-    induction cnt as [|cnt IHc]; intros i; [|induction len as [|len IHl]];
+    induction cnt as [|cnt IHc]; intros i; [intros len|induction len as [|len IHl]];
       intros j oe ne m Hm Ho Hn.
     - rewrite (CommonSub_empty _ _ _ _ _ Hm) by (left; lia). cbn [length]. lia.
     - rewrite (CommonSub_empty _ _ _ _ _ Hm) by (right; lia). cbn [length]. lia.
@@ -178,7 +178,7 @@ Section LcsLen.
     i + cnt <= oe -> j + len <= ne ->
     exists m, CommonSub cmp oe ne i j m /\ length m = L cnt i len j.
   Proof.
-    induction cnt as [|cnt IHc]; intros i; [|induction len as [|len IHl]];
+    induction cnt as [|cnt IHc]; intros i; [intros len|induction len as [|len IHl]];
       intros j oe ne Ho Hn.
     - exists []. split; [constructor|reflexivity].
     - exists []. split; [constructor|reflexivity].
